@@ -52,6 +52,9 @@ func VerifyFunction(p *Prog, fn *ssa.Function, c *Contract) (vc *VC) {
 			f.vars[name] = scopeVar{t, prm.Type()}
 		}
 	}
+	if c != nil && c.RecvAlias != "" && len(fn.Params) > 0 && fn.Signature.Recv() != nil {
+		f.vars[c.RecvAlias] = scopeVar{f.params[0].T, fn.Params[0].Type()}
+	}
 	for _, fv := range fn.FreeVars {
 		ref := vc.freshConst("fv."+fv.Name(), SInt)
 		vc.assume(And(Lt(IntLit(0), ref), Le(Base(ref), st.top), Lt(IntLit(0), Base(ref))))
